@@ -54,12 +54,13 @@ def peer_cfg(script, p):
         "handlerReplies": dense(p.get("handlerReplies"), notif_rec, notif_rec(None)),
         "estWrites": [list(b) for b in p.get("estWrites") or []],
         "handlerWrites": dense(p.get("handlerWrites"), lambda bs: [list(b) for b in bs], []),
+        "gates": [{"n": g.split("#")[0], "k": int(g.split("#")[1])} for g in (p.get("gates") or [])],
     }
 
 
 def line(k, **kw):
     d = {"k": k, "cfg": 0, "op": "", "id": "", "peer": "", "conn": "", "src": "", "dst": "",
-         "b": [], "d": 0, "w": 0, "t": 0, "ev": [], "sid": "", "racy": False}
+         "b": [], "d": 0, "w": 0, "t": 0, "ev": [], "sid": "", "racy": False, "call": ""}
     d.update(kw)
     return d
 
@@ -93,7 +94,7 @@ def stim_lines(script, i, st):
 def stim_line(script, i, st):
     op = st["op"]
     kw = dict(op=op, peer=st["peer"], conn=st["conn"], b=list(st["b"]), d=st["d"], w=st["w"],
-              sid=script["id"])
+              sid=script["id"], call=st.get("call", ""))
     if op in API_OPS:
         kw["id"] = "a%s" % i
     if op == "connect":
